@@ -15,7 +15,7 @@ Definition comp_tsk (out lf : Z) (canc recursive : bool) (w n plf : Z) : Z :=
   if canc then 0 else if lf <? out then 1 else 10 + comp_pool false false recursive w n plf.
 Definition comp_cts (placed : bool) (out lf : Z) (canc ci skip recursive : bool) (w n plf l2 : Z) : Z :=
   if (cts_threshold placed n lf <? out) && negb canc && ci then 1
-  else if negb skip && dec_overloaded recursive w n plf l2 then (if ci then 1 else 10 + force_code placed n)
+  else if negb skip && dec_overloaded recursive w n plf l2 then (if canc || negb ci then 10 + force_code placed n else 1)
   else 10 + force_code placed n.
 
 Section Ties.
@@ -95,24 +95,19 @@ Section SetTies.
   (* TaskSet::schedule: any path that reaches the functor (raw or packaged) read canceled() = false first *)
   Lemma tsk_decide_inline_implies_not_cancelled : ARGS gen_tsk_schedule <> 0 -> canc = false.
   Proof. rewrite tie_tsk_schedule. unfold comp_tsk. destruct canc; [intros H; exfalso; apply H; reflexivity | reflexivity]. Qed.
-  (* ConcurrentTaskSet: a raw inline call on a cancelled set happens exactly in the finding's domain *)
-  Lemma cts_decide_inline_cancelled_iff_domain :
-    (ARGS gen_cts_schedule = 1 /\ canc = true) <-> c04_domain true false skip ci (dec_overloaded recursive w n plf l2) canc = true.
+  (* ConcurrentTaskSet::schedule / schedulePlaced: the raw functor is called (first or second inline path) only if canceled() read false *)
+  Lemma cts_decide_inline_implies_not_cancelled : ARGS gen_cts_schedule = 1 -> canc = false.
   Proof.
-    rewrite tie_cts_schedule. unfold c04_domain, comp_cts, force_code.
-    destruct canc; cbn [negb andb].
-    - rewrite !andb_false_r. cbn [andb]. split.
-      + intros [H _]. destruct skip; cbn [negb andb] in *; destruct (dec_overloaded recursive w n plf l2); destruct ci; cbn [andb] in *;
-          try reflexivity; exfalso; destruct (cost =? c_kHeavy); destruct (n =? 0); try discriminate; lia.
-      + intros H. apply andb_prop in H. destruct H as [H Hc]. apply andb_prop in H. destruct H as [H Ho]. apply andb_prop in H. destruct H as [Hs Hi].
-        rewrite Hs, Ho, Hi. cbn [andb]. split; [destruct (cost =? c_kHeavy); reflexivity | reflexivity].
-    - rewrite !andb_false_r. split; [intros [_ H]; discriminate | intros H; discriminate].
+    rewrite tie_cts_schedule. unfold comp_cts, force_code.
+    destruct canc; [|reflexivity]. cbn [negb andb orb]. rewrite !andb_false_r. cbn [andb].
+    destruct (cost =? c_kHeavy); destruct (negb skip && dec_overloaded recursive w n plf l2); destruct (n =? 0); intros H; try discriminate; lia.
   Qed.
-  Lemma cts_decide_inline_implies_not_cancelled :
-    ARGS gen_cts_schedule = 1 -> c04_domain true false skip ci (dec_overloaded recursive w n plf l2) canc = false -> canc = false.
+  (* ... and a cancelled set never gets its functor run by the scheduling call itself: the decision is skip (0) or hand the packaged wrapper to the pool (>= 10) *)
+  Lemma cancelled_decision_never_raw : canc = true -> ARGS gen_tsk_schedule = 0 /\ ARGS gen_cts_schedule <> 1.
   Proof.
-    intros H D. pose proof cts_decide_inline_cancelled_iff_domain as [F _].
-    destruct canc; [|reflexivity]. rewrite F in D by (split; [exact H | reflexivity]). discriminate.
+    intros C. split.
+    - rewrite tie_tsk_schedule. unfold comp_tsk. rewrite C. reflexivity.
+    - intros H. apply cts_decide_inline_implies_not_cancelled in H. congruence.
   Qed.
 
   (* ---- C47 at decision level: with numThreads >= 1 every ForceQueuingTag overload enqueues ---- *)
@@ -126,6 +121,7 @@ Section SetTies.
   Qed.
 End SetTies.
 
-(* the decision-level witness of the C04 finding: cancelled, workRemaining_ 40 > poolLoadFactor_ 32, one thread, not pool-recursive *)
-Lemma c04_decision_witness : gen_cts_schedule 0 4 true true false false 40 1 32 3 c_kLightweight = 1 /\ gen_cts_schedule 0 4 true true false false 40 1 32 3 c_kHeavy = 1.
+(* regression: the decision-level witness of the former C04 finding (cancelled, workRemaining_ 40 > poolLoadFactor_ 32, one thread, not
+   pool-recursive) now queues the packaged wrapper *)
+Lemma c04_decision_regression : gen_cts_schedule 0 4 true true false false 40 1 32 3 c_kLightweight = 15 /\ gen_cts_schedule 0 4 true true false false 40 1 32 3 c_kHeavy = 16.
 Proof. split; vm_compute; reflexivity. Qed.
